@@ -3,7 +3,19 @@ import copy
 import importlib
 
 _REGISTRY = {
+    'C01': ('vt.checks.e2e_checks', 'C01'),
+    'C02': ('vt.checks.e2e_checks', 'C02'),
+    'C03': ('vt.checks.e2e_checks', 'C03'),
     'C04': ('vt.checks.e2e_checks', 'C04'),
+    'C05': ('vt.checks.e2e_checks', 'C05'),
+    'C06': ('vt.checks.e2e_checks', 'C06'),
+    'C07': ('vt.checks.e2e_checks', 'C07'),
+    'C08': ('vt.checks.e2e_checks', 'C08'),
+    'C09': ('vt.checks.e2e_checks', 'C09'),
+    'C10': ('vt.checks.e2e_checks', 'C10'),
+    'C11': ('vt.checks.e2e_checks', 'C11'),
+    'C16': ('vt.checks.unit_checks', 'C16'),
+    'C18': ('vt.checks.e2e_checks', 'C18'),
 }
 
 
